@@ -58,9 +58,17 @@ static std::string run_ab2(std::istringstream& is) {
 //   hm op op ...   a,k,v Add   r,k,i Remove(MakeIterator(keyIter, i))   v,k RemoveValues   K,k RemoveKey(iter)   c Clear
 //   D  move the container away and Clear the moved-from object (null crew)
 // per op: "<mValueCount> <valueVersion>[ <index of the returned iterator> <moved?>]"
+//   hx: the same on a container whose settings make every MOMO_CHECK throw (checkMode = exception) and switch the iterator
+//   version checks on; extra ops  I,k,i  remember MakeIterator(key, i)   U  use the remembered iterator (it->value): ok / throw
+struct HxSettings : public momo::HashMultiMapSettings {
+	static const momo::CheckMode checkMode = momo::CheckMode::exception;
+	static const bool checkKeyVersion = true;
+	static const bool checkValueVersion = true;
+};
+template<typename HM>
 static std::string run_hm(std::istringstream& is) {
-	typedef momo::HashMultiMap<int, int64_t> HM;
 	HM m; std::ostringstream line; std::string tok; bool first = true;
+	typename HM::Iterator saved; bool haveSaved = false;
 	auto find_movable = [&](int k) { auto km = m.GetKeyBounds().GetBegin(); for (; !!km && km->key != k; ++km) {} return km; };
 	while (is >> tok) {
 		std::vector<long long> a; { std::string t = tok.substr(tok.size() > 1 ? 2 : 1); std::istringstream as(t); std::string x; while (std::getline(as, x, ',')) a.push_back(std::stoll(x)); }
@@ -80,6 +88,11 @@ static std::string run_hm(std::istringstream& is) {
 		case 'v': { auto km = find_movable((int)a[0]); if (!km) { r << "skip"; break; } m.RemoveValues(km); r << m.mValueCount << " " << m.mValueCrew.GetValueVersion(); break; }
 		case 'K': { auto km = find_movable((int)a[0]); if (!km) { r << "skip"; break; } m.RemoveKey(km); r << m.mValueCount << " " << m.mValueCrew.GetValueVersion(); break; }
 		case 'c': m.Clear(); r << m.mValueCount << " " << m.mValueCrew.GetValueVersion(); break;
+		case 'I': { auto km = find_movable((int)a[0]); if (!km || (size_t)a[1] >= km->GetCount()) { r << "skip"; break; }
+			saved = m.MakeIterator(km, (size_t)a[1]); haveSaved = true; r << "it"; break; }
+		case 'U': { if (!haveSaved) { r << "skip"; break; }
+			try { int64_t v = saved->value; (void)v; r << "ok"; } catch (const std::invalid_argument&) { r << "throw"; }
+			break; }
 		case 'D': { HM other(std::move(m)); m.Clear(); r << m.mValueCount << " dead " << (m.mValueCrew.IsNull() ? 1 : 0); m = std::move(other); break; }
 		default: r << "?"; break;
 		}
@@ -101,7 +114,9 @@ int main() {
 			b.mPtr = nullptr; }
 		else if (k == "fi") { unsigned which; unsigned long long n; is >> which >> n; size_t M = which == 7 ? 7 : 2;
 			if (!(0 < n && n <= M)) std::cout << "Stuck\n"; else std::cout << (which == 7 ? AB7::pvGetFastMemPoolIndex(n) : AB2::pvGetFastMemPoolIndex(n)) << "\n"; }
-		else if (k == "hm") std::cout << run_hm(is) << "\n";
+		else if (k == "hm") std::cout << run_hm<momo::HashMultiMap<int, int64_t>>(is) << "\n";
+		else if (k == "hx") std::cout << run_hm<momo::HashMultiMap<int, int64_t, momo::HashTraits<int>, momo::MemManagerDefault,
+			momo::HashMultiMapKeyValueTraits<int, int64_t, momo::MemManagerDefault>, HxSettings>>(is) << "\n";
 		else if (k == "ab2") { size_t M; is >> M;
 			std::cout << (M == 1 ? run_ab2<1>(is) : M == 2 ? run_ab2<2>(is) : M == 7 ? run_ab2<7>(is) : M == 15 ? run_ab2<15>(is) : std::string("?M")) << "\n"; }
 		else std::cout << "?\n";
